@@ -11,25 +11,25 @@ LINK_FIELDS = ("_parent_node", "_child_nodes", "_edge", "_head_node", "_seed_nod
 
 # who may write the link fields: function -> reason
 LINK_WRITERS = {
-    NODE + ".__init__": "constructs an isolated node with its own edge",
-    NODE + ".add_child": "book-keeping primitive: sets parent, appends if absent",
-    NODE + ".insert_child": "book-keeping primitive: sets parent, (re)inserts at index",
-    NODE + ".remove_child": "book-keeping primitive: clears parent, removes from list; optional unifurcation suppression",
-    NODE + ".reversible_remove_child": "remove_child variant that records what it did",
-    NODE + ".clear_child_nodes": "empties the child list (callers detach the children)",
-    NODE + "._set_edge": "edge setter: re-targets the edge's head node",
-    NODE + "._set_parent_node": "parent setter: moves the node between child lists",
-    EDGE + ".__init__": "constructs an edge for a head node",
-    EDGE + ".invert": "swaps head and tail of one edge (used by reseed_at)",
-    TREE + ".__init__": "constructs an empty tree",
-    TREE + "._set_seed_node": "seed setter: detaches the new seed from any parent",
-    TREE + ".reseed_at": "detaches the new seed after the inversion chain",
-    TREE + ".suppress_unifurcations": "splices out out-degree-one nodes",
-    TREE + ".encode_bipartitions": "splices out out-degree-one nodes while encoding",
-    TREE + ".ladderize": "sorts child lists in place (order only)",
-    TREE + ".reorder": "sorts child lists in place (order only)",
-    "dendropy.model.birthdeath.birth_death_tree": "GSA slice cut: detaches the descendants of the nodes at the chosen slice, then clears their child lists",
-    "dendropy.model.birthdeath.fast_birth_death_tree": "GSA slice cut (same as birth_death_tree)",
+    NODE + ".__init__": (("_edge", "_child_nodes", "_parent_node"), "constructs an isolated node with its own edge"),
+    NODE + ".add_child": (("_parent_node", "_child_nodes"), "book-keeping primitive: sets parent, appends if absent"),
+    NODE + ".insert_child": (("_parent_node", "_child_nodes"), "book-keeping primitive: sets parent, (re)inserts at index"),
+    NODE + ".remove_child": (("_parent_node", "_child_nodes"), "book-keeping primitive: clears parent, removes from list; optional unifurcation suppression"),
+    NODE + ".reversible_remove_child": (("_parent_node", "_child_nodes"), "remove_child variant that records what it did"),
+    NODE + ".clear_child_nodes": (("_child_nodes",), "empties the child list (callers detach the children)"),
+    NODE + "._set_edge": (("_edge", "_head_node", "_child_nodes"), "edge setter: re-targets the edge's head node"),
+    NODE + "._set_parent_node": (("_parent_node", "_child_nodes"), "parent setter: moves the node between child lists"),
+    EDGE + ".__init__": (("_head_node",), "constructs an edge for a head node"),
+    EDGE + ".invert": (("_child_nodes", "_parent_node"), "swaps head and tail of one edge (used by reseed_at)"),
+    TREE + ".__init__": (("_seed_node",), "constructs an empty tree"),
+    TREE + "._set_seed_node": (("_seed_node",), "seed setter: detaches the new seed from any parent"),
+    TREE + ".reseed_at": (("_parent_node",), "detaches the new seed after the inversion chain"),
+    TREE + ".suppress_unifurcations": (("_parent_node",), "splices out out-degree-one nodes"),
+    TREE + ".encode_bipartitions": (("_parent_node",), "splices out out-degree-one nodes while encoding"),
+    TREE + ".ladderize": (("_child_nodes",), "sorts child lists in place (order only)"),
+    TREE + ".reorder": (("_child_nodes",), "sorts child lists in place (order only)"),
+    "dendropy.model.birthdeath.birth_death_tree": (("_parent_node",), "GSA slice cut: detaches the descendants of the nodes at the chosen slice, then clears their child lists"),
+    "dendropy.model.birthdeath.fast_birth_death_tree": (("_parent_node",), "GSA slice cut (same as birth_death_tree)"),
 }
 STRUCT_CALLS = {"remove_child", "add_child", "insert_child", "new_child", "insert_new_child", "set_child_nodes", "set_children", "clear_child_nodes",
                 "collapse", "invert", "reversible_remove_child", "reinsert_nodes", "collapse_clade", "collapse_neighborhood", "collapse_conflicting",
@@ -81,9 +81,11 @@ def run(index, rep, tier):
                 continue
             nw += 1
             seen_writers.add(fi.qualname)
-            ok = fi.qualname in LINK_WRITERS
+            ok = fi.qualname in LINK_WRITERS and w.attr in LINK_WRITERS[fi.qualname][0]
+            if ok and w.attr == "_child_nodes" and fi.qualname in (TREE + ".ladderize", TREE + ".reorder"):
+                ok = w.kind == "mutcall" and w.method in ("sort", "reverse")   # order-only
             rep.check(ok, "R03.1", fi.qualname, "%s of %s.%s" % (w.kind if w.kind != "mutcall" else w.method, w.base_text, w.attr), fn_where(fi, w.stmt),
-                      "%s writes %s (%s)" % (fi.qualname, w.attr, LINK_WRITERS.get(fi.qualname, "NOT in the writer table")),
+                      "%s writes %s (%s)" % (fi.qualname, w.attr, LINK_WRITERS[fi.qualname][1] if fi.qualname in LINK_WRITERS else "NOT in the writer table"),
                       "%s writes the link field `%s` directly (`%s`): only the book-keeping functions may, because each of them keeps parent/child/edge links paired; a direct write leaves a node listed under a parent it does not point to (or the reverse)"
                       % (fi.qualname, w.attr, norm_stmt(w.stmt)))
         for c in calls_in(fi.node):
